@@ -310,6 +310,44 @@ def subclass_polling(rep, rng, tier):
                                     viol.append((f"merge-photocurrent:{cls.__name__}", f"{what}: photocurrent is not the p : 1-p mixture"))
                 except Exception as e:      # noqa
                     viol.append((f"merge-raises:{cls.__name__}", f"{lab}: merge raises {type(e).__name__}: {e}"[:200]))
+    # expectation operators given as dictionaries: the merged result reports every key's own mixture, whatever the order in
+    # which the two operands list their (equal) keys - or the merge is refused
+    for cls in (MultiTrajResult, McResult):
+        for keep in (False, True):
+            o = {"store_states": False, "store_final_state": False, "keep_runs_results": keep}
+            names = ["a", "b", "c"]
+            ops = {"a": eops[0], "b": eops[1], "c": qutip.Qobj(np.diag([1., 1., 1.]))}
+            for perm in ([0, 1, 2], [2, 0, 1], [1, 0, 2]):
+                e1 = {k: ops[k] for k in names}
+                e2 = {names[i]: ops[names[i]] for i in perm}
+                try:
+                    r1, r2 = cls(e1, o, stats={"num_collapse": 2, "run time": 0.0}), cls(e2, o, stats={"num_collapse": 2, "run time": 0.0})
+                    trs = []
+                    for r, eo, js in ((r1, e1, (1, 2)), (r2, e2, (3, 4, 5))):
+                        for j in js:
+                            tr = Result(eo, o)
+                            for i, t in enumerate(TL):
+                                d = np.array([((3 * j + i) % 8) / 8.0, ((5 * j + 2 * i + 1) % 8) / 8.0, ((j + i) % 4) / 4.0])
+                                tr.add(t, qutip.Qobj(np.diag(d)))
+                            tr.collapse = collapses_of(j)
+                            tr.trace = [1.0] * len(TL)
+                            r.add((j, tr, 1.0) if cls is MultiTrajResult else (j, tr))
+                    rep.evaluations += 1
+                    rep.count("merge-dict-e_ops")
+                    try:
+                        m = r1 + r2
+                    except ValueError:
+                        rep.count("merge-dict-e_ops-refused")
+                        if perm == [0, 1, 2]:
+                            viol.append((f"merge-dict-refused:{cls.__name__}", f"{cls.__name__}: merging two results whose e_ops are the same dictionary is refused"))
+                        continue
+                    for k in names:
+                        want = (2 * np.asarray(r1.average_e_data[k]) + 3 * np.asarray(r2.average_e_data[k])) / 5
+                        if np.abs(np.asarray(m.average_e_data[k]) - want).max() > 1e-9:
+                            viol.append((f"merge-dict-e_ops:{cls.__name__}", f"{cls.__name__}(keep={keep}): operands list the keys of their e_ops as {list(e1)} and {list(e2)}; merged average_e_data[{k!r}] is not the mixture of the operands' average_e_data[{k!r}] (off by {np.abs(np.asarray(m.average_e_data[k]) - want).max():.3g})"))
+                            break
+                except Exception as e:      # noqa
+                    viol.append((f"merge-dict-raises:{cls.__name__}", f"{cls.__name__}: merge with dictionary e_ops raises {type(e).__name__}: {e}"[:200]))
     return viol
 
 
